@@ -2,24 +2,24 @@
 TB = "python ast + sa/ engine (own CFG, call graph, abstract evaluator) + reference tables in sa/rules with their citations"
 claim(
     "C20",
-    "typestate / must-pass-through on the statement CFG (acquire-release pairing incl. exceptional exits), "
-    "effect ownership (subprocess whitelist), call-graph reachability (no file read behind Object.lines)",
-    "Structural necessary conditions of C20 decided on every path of the current source: temporary worktree and branch are "
-    "released on all exits with the acquire's own operands, cleanup is forced, only whitelisted git sub-commands are ever "
-    "spawned and only from git.py, loads happen inside the context manager, and source lines are served from memory. "
-    "Does not decide behaviour under interruption between `add` returning and the try being entered.",
-    TB + "; cleanup statements in the finally block are assumed not to raise (they run with check=False)",
+    'typestate / must-pass-through on the statement CFG (acquire-release pairing incl. exceptional exits, no release after a failed '
+    'acquire), effect ownership (subprocess whitelist), call-graph reachability (no file read behind Object.lines)',
+    'Structural necessary conditions of C20 decided on every path of the current source: temporary worktree and branch are released on '
+    "all exits after a successful acquire with the acquire's own operands and never after a failed one, cleanup is forced, only "
+    'whitelisted git sub-commands are ever spawned and only from git.py, loads happen inside the context manager, and source lines are '
+    'served from memory. Does not decide behaviour under interruption between `add` returning and the try being entered.',
+    TB + '; cleanup statements in the finally block are assumed not to raise (they run with check=False)',
 )
 claim(
     "C15",
-    "effect ownership (sink inventory), guarded call-graph reachability with constant propagation of the inspection flags, "
-    "typestate of sys.path on the CFG, handler tables (exception discipline)",
-    "On every call path of the current source: with allow_inspection=force_inspection=False no path from the loader entry "
-    "points reaches dynamic_import, the inspector or any code-executing call; such calls exist only at two tabled owner sites; "
-    "every compile() is AST-only; sys.path is replaced only inside a save/replace/restore context manager whose restore runs on "
-    "every exit; failure types are mapped as documented. This is the whole mechanism behind C15, not a sample of loads.",
-    TB + "; extension loading (user-supplied extension modules) is cut from the reachability with the reason tabled in the rule; "
-    "by-name CHA over-approximates callees",
+    'effect ownership (sink inventory), guarded call-graph reachability with constant propagation of the inspection flags, typestate of '
+    'sys.path on the CFG including local aliases of the list object, handler tables (exception discipline)',
+    'On every call path of the current source: with allow_inspection=force_inspection=False no path from the loader entry points '
+    'reaches dynamic_import, the inspector or any code-executing call; such calls exist only at tabled owner sites; every compile() is '
+    'AST-only; sys.path is replaced only inside a save/replace/restore context manager whose restore runs on every exit, and no name '
+    'that may hold the sys.path object itself is mutated; failure types are mapped as documented. This is the whole mechanism behind '
+    'C15, not a sample of loads.',
+    TB + '; extension loading (user-supplied extension modules) is cut from the reachability with the reason tabled in the rule; by-name CHA over-approximates callees',
 )
 claim(
     "C06",
@@ -34,14 +34,17 @@ claim(
 )
 claim(
     "C16",
-    "effect ownership (who-may-write `.members` / `_target`), must-pass-through on the CFG (store -> parent link, retarget -> registration), "
-    "dominance of guards (self-target test, stub-merge preconditions)",
-    "Who may write the member mappings and alias targets, and what every such write is followed/preceded by on all paths: "
-    "stores only in SetMembersMixin (deletes in DelMembersMixin), each followed by the parent/collection link; every alias retarget "
-    "registers the back-reference; the self-target guard dominates the store; replacing a member retargets its aliases first; "
-    "dotted keys recurse on the tail. The invariants over arbitrary operation sequences (heap model) are not decided; stale "
-    "`aliases` entries after deletion are the source's own FIXME.",
-    TB,
+    "bounded-exhaustive abstract evaluation of griffe's own code (the checker's evaluator interprets the ASTs of the current source on "
+    'an enumerated finite domain): every operation sequence up to the bound (16 operations: set / delete by name, dotted path, tuple '
+    'and item syntax, with objects, aliases, dangling and self-targeting aliases, alias resolution) on a universe built with the '
+    "models' own constructors, against a dictionary model; effect ownership of members stores; store/parent pairing, alias registration "
+    'and retargeting typestate on the CFG',
+    'Decided after every history of up to 2 operations (3 in the thorough tier, 4368 histories): no operation raises except KeyError '
+    "for a key the model lacks, every member's parent is its container, dotted / tuple / chained lookups return the model's object, "
+    'deleted members are gone, aliases registered on a replaced object follow the replacement, every resolved alias is listed by its '
+    'target under its current path, no alias targets itself. Plus on every path: members stores only in the mixins, parent / collection '
+    'linking after each store, self-target test before the target store. Not decided: longer histories, random ones.',
+    TB + '; the universe: a collection, two modules, a class, a function, an attribute, two aliases',
 )
 claim(
     "C10",
@@ -55,15 +58,21 @@ claim(
 )
 claim(
     "C01",
-    "typestate of the extension-event protocol on the statement CFG, def-use provenance of line spans, scoped-flag typestate, dominance of "
-    "the tie-break guard, finite-domain abstract evaluation of the visibility predicates and get_docstring into decision tables, "
-    "dispatch-table agreement",
-    "Structural necessary conditions of C01 on every path of the visitor: handler coverage and child traversal, one announcement per "
-    "built object in the documented order with the object just built, spans taken from the handled node, runtime flag passed everywhere "
-    "and the type-guard flag scoped to the if body, the keep-existing tie-break dominated by both conditions, and the seven visibility "
-    "predicates equal to the documented table on all (up to 960) abstract states. Does not decide one-member-per-name for arbitrary "
-    "programs, docstring text equality or __all__ evaluation.",
-    TB + "; reference visibility table transcribed from the is_public docstring / docs/guide/users/navigating.md / Language Reference 7.11",
+    "bounded-exhaustive abstract evaluation of griffe's own code (the checker's evaluator interprets the ASTs of the current source on "
+    'an enumerated finite domain): the whole visitor on generated modules; typestate of the extension-event protocol on the statement '
+    'CFG; decision tables of the visibility predicates and of get_docstring; dispatch-table agreement; exception-flow analysis of the '
+    'node-kind lookup tables',
+    'Decided for about 830 generated modules (1000+ in the thorough tier): every supported definition (functions, decorated and async '
+    'ones, classes, plain / annotated / chained assignments, the four import forms, properties, instance attributes set in __init__) in '
+    'every block context (if/else, TYPE_CHECKING guards in both spellings, negated and compound conditions, try/except/else/finally, '
+    'for, with, nested combinations) at module and class level, and every ordered pair of definitions of one name with the second one '
+    'in a plain or conditional position. For each: one member per bound name, kind of the surviving binding under the tie-break, '
+    'parent, line span (decorators included) whose Object.lines slice parses back to the definition, decorators and their spans, '
+    'docstring text and span, attribute docstrings, runtime flag, and the announcement trace (each object exactly once, parent first, '
+    'kind-specific events, members-complete after the last member). Plus: handler coverage, the seven visibility predicates on up to '
+    '960 abstract states, label tables, no KeyError escape. Not decided: modules beyond two definitions of interest, __all__ '
+    'evaluation, totality on arbitrary valid Python.',
+    TB + "; the reference for the extraction table is read off the module's syntax tree by sa/tables/extraction.py (ast + the tie-break rule as stated in the property); visibility table transcribed from the is_public docstring / docs/guide/users/navigating.md / Language Reference 7.11",
 )
 claim(
     "C11",
@@ -78,36 +87,44 @@ claim(
 )
 claim(
     "C02",
-    "finite-domain abstract evaluation of get_parameters' AST on the real ast.arguments of every parameter-list shape (756 quick / 5k "
-    "thorough), compared with CPython's introspection of the same text; def-use agreement of the two consumers; typestate of the "
-    "overload / setter / deleter paths on the CFG; kind-map bijection",
-    "The alignment of names, kinds, annotations and defaults is decided for every parameter-list shape with up to two (thorough: three) "
-    "parameters per group, every default pattern and both variadics - any equivalent rewrite of the alignment code passes, any misaligned "
-    "shape is the witness. Consumers use the producer's slots; overloads are appended in order and never set as members; setters and "
-    "deleters attach to the existing property. Expression equality of annotations/defaults is C03's.",
-    TB + "; CPython's inspect.signature on a function compiled from the shape text is the reference",
+    "bounded-exhaustive abstract evaluation of griffe's own code (the checker's evaluator interprets the ASTs of the current source on "
+    "an enumerated finite domain): get_parameters on every parameter-list shape, and the visitor's function handlers on real def nodes "
+    'alone and in ordered pairs; table agreement (kind maps); typestate of the overload / setter handling on the CFG',
+    'Decided for every parameter list with up to 3 positional-only, 3 positional-or-keyword and 2 keyword-only parameters (4/4/3 '
+    'thorough), every default pattern, with and without *args/**kwargs, also with special-looking names (dunder, underscore, self, '
+    'args): names, order, kinds, annotation-per-parameter and default-per-parameter equal inspect.signature of the function compiled '
+    'from the same text. For nine kinds of definition (async property, async method, property, cached property, method, static / class '
+    'method, overloaded function, property with setter): kind, labels, parameters, overloads and setter are as CPython sees them and '
+    'are the same alone and after any other definition in the class body (no state leaks between definitions). Plus consumer '
+    "destructuring order and the inspector's kind bijection.",
+    TB + "; inspect.signature / real class bodies executed by the rule are synthesised there (never griffe's or an analysed project's code)",
 )
 claim(
     "C05",
-    "finite-domain abstract evaluation (wildcard exposure table, overwrite/add conditions, import binding), table agreement (Alias proxy "
-    "completeness and same-name forwarding, __all__ extraction table), must-pass-through on the CFG (sub-module recursion, recursion before "
-    "read, import-map write before alias placement, self-alias guard dominance)",
-    "Decided on every path / abstract state: what `from m import *` exposes, later-wins ordering of expanded wildcards, that every public "
-    "member of the object classes is proxied by Alias to the same-named attribute of the target with members re-parented to the alias, how "
-    "__all__ is collected and expanded (every path reaches the sub-modules), and how import statements bind names. Equality with CPython's "
-    "import of generated packages is not decided.",
-    TB,
+    "bounded-exhaustive abstract evaluation of griffe's own code (the checker's evaluator interprets the ASTs of the current source on "
+    'an enumerated finite domain): visit_importfrom on 150+ (module layout, scope, level, module, asname, wildcard) rows against '
+    "importlib's resolution; expand_exports on module graphs under every order of the sub-module dictionary; decision tables of "
+    'wildcard exposure and overwrite; proxy completeness of Alias (table agreement)',
+    'Decided: every `from ... import ...` form binds `asname or name` in the current scope (module or class body) to the path CPython '
+    "resolves from the enclosing module, only a self-referential alias is skipped; a module's expanded __all__ equals the list "
+    'concatenation Python computes on four module graphs x all traversal orders; is_wildcard_exposed and the overwrite rule equal `from '
+    'm import *` semantics on every abstract state; every public attribute of the object classes exists on Alias and reads the right '
+    'target; __all__ extraction table. Not decided: agreement with a real `import *` on generated packages.',
+    TB + '; importlib.util.resolve_name is the reference for relative imports',
 )
 claim(
     "C08",
-    "table agreement between the JSON writers and readers extracted from the AST (key sets with emission conditions from CFG "
-    "must-pass/dominance, constructor keywords), coverage of expression-typed fields by the re-parenting pass, enum revival, decoder "
-    "branch dominance, def-use of `full` through the encoder and both arms of the CLI dump",
-    "For every object kind, Parameter, Decorator and Docstring: required reader keys are always written, omittable writer keys are read "
-    "optionally, nothing written is ignored and nothing read is unwritable; every Expr-typed field is re-parented after reload; enums "
-    "are revived; expression (de)serialisation is symmetric; output is deterministic and `full` reaches every serialisation path; an "
-    "alias writes its own target path; `cls` is tested before `kind`. Byte-identical re-serialisation over generated trees is not decided.",
-    TB,
+    'table agreement between writers and readers (keys per kind, optional vs required, enum rebuild, expression fields); '
+    "bounded-exhaustive abstract evaluation of griffe's own code (the checker's evaluator interprets the ASTs of the current source on "
+    'an enumerated finite domain): the decoder driven by the real json object hook on a writer-shaped document (scope re-attachment of '
+    'every name, dispatch on dictionaries, members named `kind` / `cls`); effect rule for the CLI package arguments',
+    'Decided: per kind every key the reader requires is written, every key the writer may omit is read optionally, enums are rebuilt, '
+    'expression dataclasses round-trip field by field; after a reload every name in bases, decorators, signatures, annotations and '
+    'values - at any nesting depth, dotted chains included - is attached to the scope the visitor builds it in; an expression '
+    'dictionary carrying `kind` is an expression, members named `kind` or `cls` load; encoder options are forwarded by both CLI arms '
+    'and `dump` never uses its path-or-name arguments as module names. Not decided: equality of arbitrary reloaded trees; full '
+    '(non-minimal) dumps are an open finding.',
+    TB + '; json.loads with the evaluated json_decoder as object hook',
 )
 claim(
     "C09",
@@ -121,26 +138,31 @@ claim(
 )
 claim(
     "C19",
-    "def-use direction of every store in the merge functions, finite-domain abstract evaluation of the member-merge dispatch, of "
-    "merge_stubs' module selection and of the loader's stub-sub-module condition over directory layouts (pure path arithmetic), "
-    "handler coverage, alias-dereference discipline",
-    "Decided on every path / abstract state: stores go stubs -> runtime on the same field, the docstring only when missing, parameters per "
-    "name with a per-parameter skip; the member dispatch table (stub-only, stub alias, kind mismatch, unresolvable runtime alias, same kind) "
-    "is total and never raises; merge_stubs returns the regular module for either argument order and set_member stores that result; stub "
-    "sub-modules are loaded for every layout except in-package stubs; no alias error escapes. Field-by-field outcomes on generated pairs are not decided.",
-    TB,
+    "store-direction dataflow of the merge functions; bounded-exhaustive abstract evaluation of griffe's own code (the checker's "
+    'evaluator interprets the ASTs of the current source on an enumerated finite domain): the member decision table and merge_stubs end '
+    "to end on a runtime module and its stubs built with the models' constructors, in both argument orders; alias-dereference analysis "
+    '(loads and stores through raising setters) with exception flow',
+    'Decided: every store writes into the runtime object from the stubs; per member: stub-only -> added and marked not available at run '
+    'time, stub alias on an existing name -> untouched, kind mismatch or unresolvable runtime alias -> skipped without raising, same '
+    "kind -> that kind's merge; end to end (either order): the runtime module is returned with annotations and return types from the "
+    "stubs, runtime docstrings kept and missing ones - the module's own included - taken from the stubs, runtime-only members kept; no "
+    'alias error can escape a merge.',
+    TB + '',
 )
 claim(
     "C12",
-    "difference-bound dataflow on the statement CFG (loop-cursor progress with interprocedural reader summaries; list-index slack with "
-    "branch facts, short-circuit facts and caller-established preconditions), handler-coverage rules for catalogued partial operations, "
-    "dispatch-table totality, effect analysis (purity), regex-AST lint for ambiguous nested unbounded repeats",
-    "Decided for every loop and every path of the three parsers: each while loop strictly advances its cursor (so it terminates on any text); "
-    "every `lines[x + c]` is in range; annotation-element, docstring.parent, section-value, split-unpack and compile() sites are guarded for the "
-    "exceptions they can raise; every section kind and parser has a handler; nothing rooted at the docstring is mutated; no pattern can "
-    "backtrack exponentially. That plain text comes back as a single text section is not decided.",
-    TB + "; the data invariant 'last docstring line is not blank' (checked at Docstring.__init__) is used for the skip-blank loops; the "
-    "partial-operation catalogue is the one listed in the rule, not every possible Python exception",
+    'loop-progress dataflow with interprocedural reader summaries; index-safety dataflow (`x + s < len(L)`); minimum-length shape '
+    'analysis of lists (constant indexes); exception-discipline tables; purity (effect) analysis; regex AST lint; bounded-exhaustive '
+    "abstract evaluation of griffe's own code (the checker's evaluator interprets the ASTs of the current source on an enumerated "
+    'finite domain): the three parsers on every line sequence up to the bound over an alphabet of 30 line shapes',
+    'Decided on every path: each while loop advances its cursor; catalogued partial operations (line indexing, constant indexes into '
+    'item lists, annotation elements, docstring.parent chains, split-unpacking, compile) cannot raise out of a parser; every title / '
+    'Parser member has a reader; parsers never mutate the docstring or its parent; no pattern nests ambiguous unbounded repeats. '
+    'Bounded-exhaustive totality: about 9000 parses per run (all single lines and all pairs of lines after a summary; all sequences up '
+    'to 3 lines in the thorough tier) x option sets that switch reader paths x parent kinds return a list of sections without raising, '
+    'without modifying the docstring and within a step budget 40x above the observed maximum. Not decided: resource exhaustion on huge '
+    'inputs.',
+    TB + '; the alphabet of line shapes is listed in sa/rules/C12.py',
 )
 claim(
     "C04",
@@ -155,49 +177,52 @@ claim(
 )
 claim(
     "C07",
-    "finite-domain abstract evaluation of Class.mro / c3linear_merge / inherited_members (own evaluator over their ASTs) on every class "
-    "hierarchy of up to four (thorough: five) classes with every ordered choice of bases, compared with CPython's own type.__mro__; handler "
-    "and frame checks for cycles and member lookup",
-    "The computed order equals CPython's on all small hierarchies (309 rows quick, ~10k thorough), inconsistent ones raise ValueError, "
-    "cycles raise instead of looping and are tolerated by the consumers; inherited members wrap the nearest definition as inherited aliases "
-    "under the subclass and never shadow own members. Larger hierarchies are covered only through the algorithm being the same.",
-    TB + "; CPython's type() is the reference for MRO and for which hierarchies are inconsistent",
+    "bounded-exhaustive abstract evaluation of griffe's own code (the checker's evaluator interprets the ASTs of the current source on "
+    "an enumerated finite domain): Class.mro / c3linear_merge on every hierarchy up to the bound against type()'s MRO; inherited "
+    'members; resolved bases; staleness table (derived views re-read after the state changed, with functools memoisation modelled)',
+    "Decided: MRO equal to CPython's (or ValueError where CPython refuses) for every hierarchy of up to 4 classes (5 thorough) with "
+    'every ordered choice of bases; cycles raise; the first provider along the MRO wins for inherited members, own members win; '
+    'resolved_bases keeps every findable base in order; resolved_bases, mro(), inherited_members and all_members reflect a base loaded '
+    'later or a member added later (no memoisation). Not decided: hierarchies of more than 5 classes.',
+    TB + "; CPython's type() on classes synthesised by the rule is the reference",
 )
 claim(
     "C18",
-    "finite-domain abstract evaluation of the dataclasses extension's functions on every small dataclass definition (two fields x twelve "
-    "field forms x decorator kw_only x KW_ONLY position; single and three-level inheritance with overrides), compared with the __init__ "
-    "CPython's dataclasses module generates for the same text; dominance (never replace / never invent), must-pass-through (always on, "
-    "expansion before the event), effect rule (memoised list never mutated)",
-    "The synthesised constructor's parameter names, order, kinds and required-ness equal CPython's on ~1.7k (thorough ~3.4k) definitions; "
-    "a hand-written __init__ is never replaced, plain classes get none, subclasses of dataclasses are labelled; the extension is always "
-    "loaded and runs after exports/wildcards were expanded; the cached per-class field list is never mutated. Larger definitions are "
-    "covered only through the rules being the same.",
-    TB + "; CPython's dataclasses + inspect.signature on a class compiled from the definition text is the reference; the abstract class model "
-    "mirrors what the visitor stores (labels, annotation paths, field() call arguments)",
+    "bounded-exhaustive abstract evaluation of griffe's own code (the checker's evaluator interprets the ASTs of the current source on "
+    "an enumerated finite domain): _set_dataclass_init on every small dataclass definition against dataclasses' own __init__, and the "
+    'extension run over packages processed one after the other (functools memoisation modelled); call-graph rule for extension loading; '
+    'alias analysis of the memoised list',
+    'Decided for 1600 definitions (two fields x 11 field forms x decorator options x KW_ONLY positions, single inheritance with and '
+    "without overriding, three-level chains): the synthesised parameters (names, order, kinds, required-ness) equal those of CPython's "
+    'generated __init__; a base with InitVar pseudo-fields processed in an earlier package still passes them to a class of a later '
+    'package; an __init__ is synthesised only for decorated classes without one; the extension is always loaded; the memoised list is '
+    'never mutated. Three inheritance rows are open findings.',
+    TB + '; dataclasses.dataclass on classes synthesised by the rule is the reference',
 )
 claim(
     "C17",
-    "sibling agreement between the two agents: registry exhaustiveness (ObjectKind vs inspect_* handlers), finite-domain abstract evaluation "
-    "of the kind decision list and of generic_inspect's alias decision, typestate of the extension-event protocol on the inspector's CFG, "
-    "kind-map bijection, docstring-source rule, and the static parameter alignment against CPython's introspection",
-    "Decided on every path / abstract state of the inspector: each runtime kind has a handler; specific kinds win over the general ones they "
-    "imply; objects are announced with the visitor's protocol and properties become attributes on both sides; imported objects become aliases "
-    "except a same-named direct sub-module; parameters convert through a bijective kind map; docstrings are the object's own; and the static "
-    "side lists parameters exactly as inspect.signature does. Actual outputs on importable modules are not compared.",
-    TB,
+    'sibling agreement between the inspector and the visitor (extension-event typestate shared with C01, kind handlers, parameter '
+    "conversion); bounded-exhaustive abstract evaluation of griffe's own code (the checker's evaluator interprets the ASTs of the "
+    'current source on an enumerated finite domain): kind decision list, child table of generic_inspect, get_parameters vs '
+    'inspect.signature, visit_importfrom vs importlib, inspect_class on synthesised generic hierarchies',
+    "Decided: every ObjectKind has a handler, specific kinds win over general ones, the inspector announces objects with the visitor's "
+    "protocol, parameters convert through a bijective kind map, the object's own __doc__ is read, children are inspected / aliased per "
+    "the documented table, the static side's parameters and import aliases are what CPython binds (what the inspector observes), and "
+    "inspect_class records the class's own direct bases for plain, generic, parametrised and protocol hierarchies. Equality of the two "
+    'trees on real modules is not decided.',
+    TB + '; classes handed to inspect_class are synthesised in the rule',
 )
 claim(
     "C14",
-    "finite-domain abstract evaluation of the finder over a virtual file system (pure path arithmetic; three listing orders) - precedence "
-    "table of find_package against the import system's rule, sub-module enumeration table, .pth scan, intermediate namespace modules, module "
-    "classification table - plus listing-order taint: every directory-listing call must be sorted/min'ed or used for membership only before "
-    "an order-sensitive consumer (consumers must sort with a total key)",
-    "Decided on 81 two-search-path layouts x three listing orders and five package layouts: which file provides a package (first path wins, "
-    "directory before module file, namespace portions, stubs), which sub-modules are listed under which dotted parts, that results do not "
-    "depend on the listing order, how modules are classified, and that every listing source in finder.py is order-clean. Agreement with "
-    "pkgutil.walk_packages on generated trees is not decided.",
-    TB + "; the virtual file system stands for the OS; the import-system precedence rule is written in the rule module",
+    "bounded-exhaustive abstract evaluation of griffe's own code (the checker's evaluator interprets the ASTs of the current source on "
+    'an enumerated finite domain) over a virtual file system: find_package / find_spec / submodules / .pth scan on 81 two-search-path '
+    'layouts x three listing orders, by-path requests, module classification, dotted path parts in the loader; taint of listing calls '
+    '(order-clean consumers)',
+    'Decided: which file provides a package (first search path wins, directory before module file, namespace portions, stubs), that a '
+    'package requested by path wins over a same-named one on the search paths, which sub-modules are listed with which dotted parts, '
+    'that files under a directory whose name contains a dot are skipped, that results do not depend on the listing order, how modules '
+    'are classified. Agreement with pkgutil.walk_packages on generated trees is not decided.',
+    TB + '; the virtual file system stands for the OS; the import-system precedence rule is written in the rule module',
 )
 claim(
     "C13",
